@@ -280,24 +280,31 @@ def install(which=("headers", "readers", "expand", "box_array", "init")):
         for name, cond in (("shape_from_header", shape_from_header_ok),
                            ("indices_from_header", indices_from_header_ok),
                            ("header_from_indices", header_from_indices_ok)):
-            orig = getattr(U, name)
+            orig = getattr(U, name, None)
+            if orig is None:
+                continue      # renamed by a refactor: the contract is simply not installed
             rebind(name, _ensure(orig, cond), orig)
     if "readers" in which:
         for name in ("mp_read_box_single_field", "mp_read_box_slice_field", "mp_read_box_index_field"):
-            orig = getattr(PC, name)
-            rebind(name, _ensure(orig, read_box_ok), orig)
+            orig = getattr(PC, name, None)
+            if orig is not None:
+                rebind(name, _ensure(orig, read_box_ok), orig)
         for name in ("mp_read_bfile_single_field", "mp_read_bfile_slice_field", "mp_read_bfile_index_field"):
-            orig = getattr(PC, name)
-            rebind(name, _ensure(orig, read_bfile_ok), orig)
+            orig = getattr(PC, name, None)
+            if orig is not None:
+                rebind(name, _ensure(orig, read_bfile_ok), orig)
     if "expand" in which:
         MU = common.repo_module("amr_kitchen.mandoline.utils")
-        orig = MU.expand_array
-        rebind("expand_array", _ensure(orig, expand_array_ok), orig)
-        orig = U.expand_array3d
-        rebind("expand_array3d", _ensure(orig, expand_array3d_ok), orig)
+        orig = getattr(MU, "expand_array", None)
+        if orig is not None:
+            rebind("expand_array", _ensure(orig, expand_array_ok), orig)
+        orig = getattr(U, "expand_array3d", None)
+        if orig is not None:
+            rebind("expand_array3d", _ensure(orig, expand_array3d_ok), orig)
     if "box_array" in which:
-        PC.PlotfileCooker.compute_box_array = _ensure(PC.PlotfileCooker.compute_box_array, box_array_ok)
-        done.append("compute_box_array")
+        if hasattr(PC.PlotfileCooker, "compute_box_array"):
+            PC.PlotfileCooker.compute_box_array = _ensure(PC.PlotfileCooker.compute_box_array, box_array_ok)
+            done.append("compute_box_array")
     if "init" in which:
         orig_init = PC.PlotfileCooker.__init__
 
